@@ -370,6 +370,19 @@ def gen_c02(ctx):
             c = factor_case(rng, False, 'gstrf', pmodes=(0, 1, 2))
             c['u'] = rng.choice([1.0, 0.5, 0.1, 0.0])
             items.append(({'variant': 'vblas', 'prec': pv[i]}, c))
+    # exact magnitude ties between the diagonal and other candidates at the default threshold u = 1 (unit-valued arrows, bands, grids,
+    # trees; natural and computed orderings): a diagonal that EQUALS the column maximum meets the threshold and has to be the pivot.
+    # Decided exactly for columns that received no update (their candidates are entries of A), see check_diag_pref.
+    NT = 400 if ctx.quick else 5000
+    pv = spread(rng, NT)
+    for i in range(NT):
+        fam = rng.choice(['arrow', 'arrow', 'band', 'grid', 'tree', 'star', 'dense'])
+        c = {'cmd': 'gstrf', 'fam': fam, 'n': rng.choice([5, 8, 12, 20, 30, 44]), 'seed': rng.randrange(1, 1 << 30), 'vals': 'ones', 'u': 1.0, 'np': rng.choice([1, 2, 4]), 'ord': rng.choice([0, 0, 1, 2, 3]),
+             'w': rng.choice([1, 2, 8]), 'relax': rng.choice([1, 2, 4]), 'rowblk': 200, 'colblk': 100, 'bl': rng.choice([1, 2]), 'bu': rng.choice([1, 2]), 'bs': 2, 'ncpl': 1, 'shape': rng.choice([0, 1, 2]), 'kary': 3,
+             'ties': 1}
+        c['maxsup'] = max(c['relax'], 8)
+        if c['np'] > 1: c['pmode'] = rng.choice([0, 1]); c['pert'] = rng.randrange(1, 1 << 30)
+        items.append(({'variant': 'plain', 'prec': pv[i]}, c))
     return items
 
 def nontrivial_c02(r):
@@ -377,7 +390,7 @@ def nontrivial_c02(r):
         return (r.get('result') or {}).get('info') == 0 and int(r['case']['n']) >= 2
     return nontrivial_factor(r)
 
-PROPS['C02'] = dict(gen=gen_c02, relevant=('C02|',), counters=EV_COUNTERS + ('diag_checked', 'diag_undecided', 'usepr_kept'),
+PROPS['C02'] = dict(gen=gen_c02, relevant=('C02|',), counters=EV_COUNTERS + ('diag_checked', 'diag_undecided', 'diag_ties', 'usepr_kept'),
                     nontrivial=nontrivial_c02, batch=40,
                     rule=RULE_FACTOR + '; plus every structurally nonsingular 0/1 pattern with n<=3 (quick) / n<=4 (thorough) under every forced row order '
                     '(usepr, u=0) with P in {1,2} (non-trivial there: info=0 and n>=2); oracle: |Pr*A*Pc-L*U| <= gamma(n)|L||U| in extended precision, '
@@ -1180,7 +1193,7 @@ PROPS['C08'] = dict(gen=gen_c08, relevant=('C08|', 'C09|refact', 'C09|first'), c
                     'on one pattern, thread count varying between calls, internal and caller-supplied workspace, plain and ASan builds; new values either keep old pivots valid or re-rank column maxima by factors 1/64..128; '
                     'distinct = sha1(case); non-trivial = at least one refactorization or reuse-solve executed; oracle after every call: reconstruction against the values current at that call, residual bound, structural validator; '
                     'with pivot reuse an extended-precision replay of the old row order decides whether perm_r must be identical or must change; solves must leave A, L, U and both permutations bit-identical; in half of the cases every refactorization is handed the permutations in new arrays (same contents, the old arrays poisoned: pp_moves)',
-                    floors={'nrefact': 300, 'nsolve': 300, 'usepr_kept': 20, 'usepr_changed': 20, 'pp_moves': 100})
+                    floors={'nrefact': 300, 'nsolve': 300, 'usepr_kept': 20, 'usepr_changed': 20, 'pp_moves': 50})
 
 # ---- C14 ----
 def gen_c14(ctx):
